@@ -692,6 +692,7 @@ type scenario struct {
 	header  string
 	events  []string // input lines
 	outs    []string // implementation observation lines
+	aux     []string // per event: facts that are not part of the correspondence (timer generation)
 	elapsed time.Duration
 }
 
@@ -709,6 +710,7 @@ type runner struct {
 	grSince  time.Time
 	sc       *scenario
 	dead     bool
+	gens     []any
 }
 
 const eventDeadline = 5 * time.Second
@@ -771,8 +773,21 @@ func (rn *runner) do(line string, e env, failAt int, f func()) {
 			}
 		}
 	}
+	rn.sc.aux = append(rn.sc.aux, fmt.Sprintf("gen=%d", rn.genIndex()))
 	rn.sc.events = append(rn.sc.events, fmt.Sprintf("%s env=%s fail=%s", line, envs, fs))
 	rn.sc.outs = append(rn.sc.outs, strings.Join(obs, " ")+" | "+rn.snapLine(false))
+}
+
+// index of the armed timer's stop channel among the ones seen in this scenario (kept alive, so never reused)
+func (rn *runner) genIndex() int {
+	g := rn.conn.VerifTimerGeneration()
+	for i, x := range rn.gens {
+		if x == g {
+			return i
+		}
+	}
+	rn.gens = append(rn.gens, g)
+	return len(rn.gens) - 1
 }
 
 func (rn *runner) randEnv() env {
@@ -1015,6 +1030,7 @@ func (rn *runner) spontaneousTimeout(e env) {
 		n := len(rn.sc.events)
 		rn.sc.events = rn.sc.events[:n-1]
 		rn.sc.outs = rn.sc.outs[:n-1]
+		rn.sc.aux = rn.sc.aux[:len(rn.sc.aux)-1]
 	}
 }
 
@@ -1064,6 +1080,7 @@ func connstepMain(args []string) int {
 	workers := fs.Int("workers", 32, "parallel scenarios")
 	outIn := fs.String("in", "conn_in.txt", "event lines (model input)")
 	outImpl := fs.String("impl", "conn_impl.txt", "implementation observation lines")
+	outAux := fs.String("aux", "", "per-event auxiliary facts (timer generation), one line per event line")
 	fuzz := fs.Bool("fuzz", false, "malformed and out-of-phase messages dominate (C08)")
 	_ = fs.Parse(args)
 	connFuzz = *fuzz
@@ -1097,5 +1114,17 @@ func connstepMain(args []string) int {
 	bo.Flush()
 	fi.Close()
 	fo.Close()
+	if *outAux != "" {
+		fa, _ := os.Create(*outAux)
+		ba := bufio.NewWriter(fa)
+		for _, sc := range res {
+			fmt.Fprintln(ba, "new")
+			for k := range sc.events {
+				fmt.Fprintln(ba, sc.aux[k])
+			}
+		}
+		ba.Flush()
+		fa.Close()
+	}
 	return 0
 }
